@@ -177,17 +177,19 @@ int tls13_gcm_decrypt(const BLOCK_CIPHER_KEY *key, const uint8_t iv[12],
 	}
 	// remove padding, get record_type
 	*record_type = 0;
-	while (mlen--) {
+	while (mlen > 0) {
+		mlen--;
 		if (out[mlen] != 0) {
 			*record_type = out[mlen];
 			break;
 		}
 	}
-	*outlen = mlen;
 	if (!tls_record_type_name(*record_type)) {
+		*outlen = 0;
 		error_print();
 		return -1;
 	}
+	*outlen = mlen;
 	return 1;
 }
 
